@@ -66,3 +66,56 @@ Definition judge_spec (c : scase) : nat :=
     else
       let ok := match sc_out c with IVOk l => list_eqb var_eqb l (spec_vars d (s "public")) | IVErr _ => false end in
       verdict (negb (vars_match m (sc_out c))) (negb ok) (if ok then 0 else decl_region sp d).
+
+(* ---- a small program unit: header groups, body lines, what FORD built *)
+Inductive iunit : Type :=
+| IUOk (attribs : list str) (args : list var) (retvar : option var) (vars : list var)
+| IUErr (ety : str).
+
+Definition unit_match (m : res unit_out) (i : iunit) : bool :=
+  match m, i with
+  | Ok u, IUOk a args r vars =>
+    list_eqb seqb (u_attribs u) a && list_eqb var_eqb (u_args u) args
+    && opt_eqb var_eqb (u_retvar u) r && list_eqb var_eqb (u_vars u) vars
+  | Err e, IUErr e' => seqb e e'
+  | _, _ => false
+  end.
+
+Definition judge_unit (c : header * list str * iunit) : nat :=
+  let '(h, body, out) := c in
+  let m := unit_model h body in
+  if is_unmodelled m then unmodelled_code else verdict (negb (unit_match m out)) false 0.
+
+(* ---- an abstract unit in a chosen spelling *)
+Record ucase := mkuc {
+  uc_unit : aunit; uc_sp : uspell;
+  uc_header : str; uc_body : list str; uc_end : str;     (* the text the harness wrote *)
+  uc_groups : header;                                      (* groups of FUNCTION_RE / SUBROUTINE_RE on the header *)
+  uc_out : iunit
+}.
+
+Definition unit_ok (sp : uspell) (u : aunit) : bool :=
+  ident_ok (au_name u) && forallb ident_ok (au_args u)
+  && match au_result u with Some r => ident_ok r | None => true end
+  && match au_rettype u with Some t => type_ok (us_rettype sp) t | None => true end
+  && (fix go (ds : list adecl) (i : nat) : bool :=
+        match ds with
+        | [] => true
+        | d :: ds' => decl_ok (nth_or_last (us_decls sp) i plain_dspell) d && go ds' (S i)
+        end) (au_decls u) 0.
+
+Definition judge_uspec (c : ucase) : nat :=
+  let u := uc_unit c in let sp := uc_sp c in
+  let '(hd, body, en) := render_unit sp u in
+  let g := uc_groups c in
+  if negb (unit_ok sp u) || negb (seqb hd (uc_header c)) || negb (list_eqb seqb body (uc_body c))
+     || negb (seqb en (uc_end c)) || negb (seqb (h_name g) (au_name u))
+     || negb (list_eqb seqb (split_args (h_arguments g)) (au_args u))
+     || negb (ostr_eqb (h_result g) (au_result u))
+  then malformed_code
+  else
+    let m := unit_model g (uc_body c) in
+    if is_unmodelled m then unmodelled_code
+    else
+      let ok := unit_match (Ok (spec_unit u)) (uc_out c) in
+      verdict (negb (unit_match m (uc_out c))) (negb ok) (if ok then 0 else unit_region sp u).
